@@ -787,7 +787,8 @@ class Summaries:
         """not a summary: inside the functions of audit/contracts.py NOWRAP_CALLERS an unsigned wrapping_add / wrapping_sub must provably not
         wrap (obligation `wrap-free`); the call itself is then analysed from its own MIR as usual"""
         from audit.contracts import NOWRAP_CALLERS
-        why = NOWRAP_CALLERS.get(inst.get("dpath"))
+        from audit.roles import canonical
+        why = NOWRAP_CALLERS.get(canonical(self.ctx.facts, inst.get("dpath")))
         if why is not None and len(args) == 2 and is_int(args[0]) and is_int(args[1]):
             a, b = args
             A, B = st.get_iv(a), st.get_iv(b)
